@@ -258,37 +258,74 @@ def _independent_reading(classes, by_name, env, ids) -> list:
     return [[ids[c.__name__] for c in nodes], sorted(edges)]
 
 
-def _run_query(cd, q, by_name):
+def _edge_tuple(e, ids) -> list:
+    from krrood.class_diagrams.class_diagram import Association, Inheritance
+    if isinstance(e, Inheritance):
+        return [0, ids[e.source.clazz.__name__], ids[e.target.clazz.__name__], 1]
+    if isinstance(e, Association):
+        return [1, ids[e.source.clazz.__name__], ids[e.target.clazz.__name__], ids[e.field.field.name]]
+    return [9, 0, 0, 0]
+
+
+def _run_query(cd, q, by_name, ids):
+    """Run one public read-only query; the answer is encoded like SubDiagram.answer ([] for the uncompared ones)."""
     from krrood.class_diagrams.class_diagram import Association, Inheritance
     k = q[0]
     if k == "nodes":
-        return len(cd.wrapped_classes)
+        return [ids[w.clazz.__name__] for w in cd.wrapped_classes]
     if k == "associations":
-        return len(cd.associations)
+        return sorted(_edge_tuple(e, ids) for e in cd.associations)
     if k == "inheritance":
-        return len(cd.inheritance_relations)
+        return sorted(_edge_tuple(e, ids) for e in cd.inheritance_relations)
     if k == "outedges":
         c = by_name[q[1]]
-        n = len(cd.get_out_edges(c)) + len(list(cd.get_outgoing_relations(c)))
-        return n + len(list(cd.get_associations_with_condition(c, lambda a: True)))
-    if k == "ancestors":
-        return len(cd.all_ancestors(cd.get_wrapped_class(by_name[q[1]]).index)) + len(cd.parent_map)
-    if k == "assockeys":
-        return len(cd.get_assoc_keys_by_source(bool(q[1])))
-    if k == "neighbours":
+        return [sorted(_edge_tuple(e, ids) for e in cd.get_out_edges(c)),
+                sorted(_edge_tuple(e, ids) for e in cd.get_outgoing_relations(c)),
+                sorted(_edge_tuple(e, ids) for e in cd.get_associations_with_condition(c, lambda a: True))]
+    if k in ("outnb", "innb"):
         c = by_name[q[1]]
         rel = Association if q[2] else Inheritance
-        return (len(cd.get_neighbors_with_relation_type(c, rel)) + len(cd.get_outgoing_neighbors_with_relation_type(c, rel))
-                + len(cd.get_incoming_neighbors_with_relation_type(c, rel)))
+        f = cd.get_outgoing_neighbors_with_relation_type if k == "outnb" else cd.get_incoming_neighbors_with_relation_type
+        return sorted({ids[w.clazz.__name__] for w in f(c, rel)})
+    if k == "ancestors":
+        cd.all_ancestors(cd.get_wrapped_class(by_name[q[1]]).index)
+        cd.parent_map  # noqa
+        return []
+    if k == "assockeys":
+        cd.get_assoc_keys_by_source(bool(q[1]))
+        return []
+    if k == "neighbours":
+        cd.get_neighbors_with_relation_type(by_name[q[1]], Association if q[2] else Inheritance)
+        return []
     if k == "roletaker":
         c = by_name[q[1]]
-        r = cd.get_role_taker_associations_of_cls(c)
+        cd.get_role_taker_associations_of_cls(c)
         cd.get_common_role_taker_associations(c, c)
-        return 0 if r is None else 1
+        return []
     if k == "render":
-        root = cd._build_rxnode_tree(add_association_relations=bool(q[1]))
-        return 1 if root is not None else 0
+        cd._build_rxnode_tree(add_association_relations=bool(q[1]))
+        return []
     raise ValueError(q)
+
+
+def expected_answer(snap, q, ids):
+    """What a query has to answer, read off a graph snapshot [nodes, sorted edges] (harness-side, independent of krrood)."""
+    nodes, edges = snap
+    k = q[0]
+    if k == "nodes":
+        return list(nodes)
+    if k == "associations":
+        return sorted(e for e in edges if e[0] == 1)
+    if k == "inheritance":
+        return sorted(e for e in edges if e[0] == 0)
+    if k == "outedges":
+        es = sorted(e for e in edges if e[1] == ids[q[1]])
+        return [es, es, [e for e in es if e[0] == 1]]
+    if k == "outnb":
+        return sorted({e[2] for e in edges if e[1] == ids[q[1]] and e[0] == (1 if q[2] else 0)})
+    if k == "innb":
+        return sorted({e[1] for e in edges if e[2] == ids[q[1]] and e[0] == (1 if q[2] else 0)})
+    return []
 
 
 def run_case(case: dict, case_dir: str) -> dict:
@@ -340,6 +377,7 @@ def run_case(case: dict, case_dir: str) -> dict:
     objs = [cd]
     trace = []
     for op in case["ops"]:
+        ans = []
         try:
             if op[0] == "sub":
                 if op[1] < len(objs):
@@ -350,7 +388,7 @@ def run_case(case: dict, case_dir: str) -> dict:
             elif op[0] == "query":
                 if op[1] < len(objs):
                     try:
-                        _run_query(objs[op[1]], op[2], by_name)
+                        ans = _run_query(objs[op[1]], op[2], by_name, ids)
                     except TypeError as e:
                         # the installed rustworkx_utils has another RWXNode signature: rendering is unavailable here
                         if op[2][0] != "render" or "RWXNode" not in str(e):
@@ -359,7 +397,7 @@ def run_case(case: dict, case_dir: str) -> dict:
         except Exception as e:  # noqa
             trace.append(["error", f"{op}: {type(e).__name__}: {e}"])
             break
-        trace.append([_snapshot(o, ids) for o in objs])
+        trace.append([ans, [_snapshot(o, ids) for o in objs]])
     out["trace"] = trace
     return out
 
@@ -395,7 +433,7 @@ Definition F (n : positive) (pr : bool) (t : ty) (d df : bool) : fdecl := Build_
 Definition D (n : positive) (k : dkind) (bs : list name) (fs : list fdecl) (hid : list name) : decl := Build_decl n k bs fs hid.
 Definition S (t : nat) (b : bool) := OpSub t b.
 Definition Cp (t : nat) := OpCopy t.
-Definition Q (t : nat) := OpQuery t QNodes.
+Definition Q (t : nat) (q : query) := OpQuery t q.
 Definition case_sx (p : prog) (cs : list name) (ops : list op) : sx :=
   SL [SB (wf_prog p && wf_classes p cs); spec_sx p cs;
       match build p cs with
@@ -473,7 +511,22 @@ def prog_coq(decls, ids) -> str:
     return "[" + ";\n   ".join(ds) + "]"
 
 
-def ops_coq(ops) -> str:
+def query_coq(q, ids) -> str:
+    k = q[0]
+    if k == "nodes":
+        return "QNodes"
+    if k == "associations":
+        return "QAssociations"
+    if k == "inheritance":
+        return "QInheritance"
+    if k == "outedges":
+        return f"(QOutEdges {ids[q[1]]})"
+    if k in ("outnb", "innb"):
+        return f"({'QOutNeighbours' if k == 'outnb' else 'QInNeighbours'} {ids[q[1]]} {'EAssoc' if q[2] else 'EInh'})"
+    return "QOther"
+
+
+def ops_coq(ops, ids) -> str:
     out = []
     for o in ops:
         if o[0] == "sub":
@@ -481,14 +534,14 @@ def ops_coq(ops) -> str:
         elif o[0] == "copy":
             out.append(f"Cp {o[1]}%nat")
         else:
-            out.append(f"Q {o[1]}%nat")
+            out.append(f"Q {o[1]}%nat {query_coq(o[2], ids)}")
     return "[" + "; ".join(out) + "]"
 
 
 def case_coq(case) -> str:
     ids = case["ids"]
     cs = "[" + "; ".join(str(ids[c]) for c in case["classes"]) + "]"
-    return f"case_sx\n  {prog_coq(case['decls'], ids)}\n  {cs} {ops_coq(case['ops'])}"
+    return f"case_sx\n  {prog_coq(case['decls'], ids)}\n  {cs} {ops_coq(case['ops'], ids)}"
 
 
 def mro_ok(decls) -> bool:
@@ -538,6 +591,51 @@ def gen_ann(rng, targets_cls, targets_enum, earlier, variant, unsupported=False)
 
 def _leaf(t):
     return t if t[0] in ("B", "C", "E", "F", "Bare") else _leaf(t[-1])
+
+
+def gen_query(rng, classes) -> list:
+    r = rng.random()
+    c = rng.choice(classes)
+    if r < 0.4:
+        return ["outedges", c]
+    if r < 0.55:
+        return [rng.choice(["outnb", "innb"]), c, rng.chance(0.5)]
+    if r < 0.7:
+        return rng.choice([["nodes"], ["associations"], ["inheritance"]])
+    return rng.choice([["ancestors", c], ["assockeys", rng.chance(0.5)], ["neighbours", c, rng.chance(0.5)],
+                       ["roletaker", c], ["render", rng.chance(0.5)]])
+
+
+def gen_ops(rng, classes) -> list:
+    """Read-only operations on the diagram (object 0) and on everything derived from it.  Queries are interleaved in
+    both orders (the same query on a view and then on its source, or the reverse), and the sequence ends with a sweep
+    that asks every object for the out-edges of every class, the views first and the source last."""
+    ops = []
+    parent = [None]           # parent[i]: the object i was derived from
+    for _i in range(rng.randint(0, 6)):
+        r = rng.random()
+        t = rng.randint(0, len(parent) - 1)
+        if r < 0.35:
+            ops.append(["sub", t, rng.chance(0.5)])
+            parent.append(t)
+        elif r < 0.45:
+            ops.append(["copy", t])
+            parent.append(t)
+        elif r < 0.75 and len(parent) > 1:
+            v = rng.randint(1, len(parent) - 1)
+            q = gen_query(rng, classes)
+            pair = [["query", v, q], ["query", parent[v], q]]
+            if rng.chance(0.35):
+                pair.reverse()
+            ops += pair
+        else:
+            ops.append(["query", t, gen_query(rng, classes)])
+    if len(parent) > 1 and rng.chance(0.85):
+        for t in range(len(parent) - 1, -1, -1):
+            for c in classes:
+                ops.append(["query", t, ["outedges", c]])
+            ops.append(["query", t, [rng.choice(["outnb", "innb"]), rng.choice(classes), rng.chance(0.5)]])
+    return ops
 
 
 def gen_program(rng, stream: str) -> dict:
@@ -618,23 +716,7 @@ def gen_program(rng, stream: str) -> dict:
                 continue
         k = len(dcs) if rng.chance(0.5) else rng.randint(1, len(dcs))
         classes = rng.sample(dcs, k)
-        ops = []
-        nobj = 1
-        for _i in range(rng.randint(0, 6)):
-            r = rng.random()
-            t = rng.randint(0, nobj - 1)
-            if r < 0.4:
-                ops.append(["sub", t, rng.chance(0.5)])
-                nobj += 1
-            elif r < 0.55:
-                ops.append(["copy", t])
-                nobj += 1
-            else:
-                q = rng.choice([["nodes"], ["associations"], ["inheritance"], ["outedges", rng.choice(classes)],
-                                ["ancestors", rng.choice(classes)], ["assockeys", rng.chance(0.5)],
-                                ["neighbours", rng.choice(classes), rng.chance(0.5)], ["roletaker", rng.choice(classes)],
-                                ["render", rng.chance(0.5)]])
-                ops.append(["query", t, q])
+        ops = gen_ops(rng, classes)
         case = {"kind": "diagram", "stream": stream, "variant": variant, "decls": decls, "classes": classes, "ops": ops}
         return finish_case(case)
     raise RuntimeError("generator could not produce a valid hierarchy")
@@ -753,6 +835,13 @@ def snippet(case) -> str:
             lines.append(f"objs.append(objs[{o[1]}].to_subdiagram_without_inherited_associations(include_field_name={bool(o[2])})); print('source intact:', snap(cd) == before)")
         elif o[0] == "copy":
             lines.append(f"objs.append(copy.copy(objs[{o[1]}]))")
+        elif o[2][0] == "outedges":
+            lines.append(f"print('object {o[1]} out-edges of {o[2][1]}:', sorted(str(e) + ':' + e.target.clazz.__name__ for e in objs[{o[1]}].get_out_edges({o[2][1]})), "
+                         f"'| its graph says:', sorted(str(e) + ':' + e.target.clazz.__name__ for _, _, e in objs[{o[1]}]._dependency_graph.out_edges(objs[{o[1]}].get_wrapped_class({o[2][1]}).index)))")
+        elif o[2][0] in ("outnb", "innb"):
+            meth = "get_outgoing_neighbors_with_relation_type" if o[2][0] == "outnb" else "get_incoming_neighbors_with_relation_type"
+            lines.append(f"from krrood.class_diagrams.class_diagram import Association, Inheritance; "
+                         f"print('object {o[1]} {o[2][0]} {o[2][1]}:', sorted(w.clazz.__name__ for w in objs[{o[1]}].{meth}({o[2][1]}, {'Association' if o[2][2] else 'Inheritance'})))")
     return "\n".join(lines)
 
 
@@ -925,32 +1014,64 @@ def check_diagrams(rep, cases: List[dict], model_ok: bool, kf_classes: set, tag:
             if wf_ty(rt):
                 # names are case-local: canonical ids for the spec query
                 kind_exprs.setdefault(repr((rt, pv[:9], c["ids"])), (rt, pv[:9], c, fk))
-        # ---------------- views
+        # ---------------- views: observations = graph of every object + the answers of the queries
         trace = r.get("trace") or []
         dist["ops"] += len(c["ops"])
         dist["render_unavailable"] = dist.get("render_unavailable", 0) + r.get("render_unavailable", 0)
         if impl[0] == 0:
             src = impl[1]
-            nobj = 1
-            for step, (op, snaps) in enumerate(zip(c["ops"], trace)):
-                if snaps and snaps[0] == "error":
-                    rep.violation(dict(base, kind="counterexample", part="views", step=step, impl=snaps,
+            prev = [src]
+            root = [0]                     # root[i]: the object whose graph cell object i reads (copies alias)
+            flagged = False
+            for step, (op, entry) in enumerate(zip(c["ops"], trace)):
+                if entry and entry[0] == "error":
+                    rep.violation(dict(base, kind="counterexample", part="views", step=step, impl=entry,
                                        explanation="a read-only operation raised"))
+                    flagged = True
                     break
+                ans, snaps = entry
                 if snaps[0] != src:
                     rep.violation(dict(base, kind="counterexample", part="views", step=step, op=op, impl=snaps[0], spec=src,
-                                       model=None if model_trace is None else model_trace[step][0],
-                                       explanation="the source diagram (object 0) reads differently after this read-only operation"))
+                                       explanation="the graph of the source diagram (object 0) reads differently after this read-only operation"))
+                    flagged = True
                     break
-                if op[0] == "sub":
+                if op[0] == "query":
+                    dist["queries"] = dist.get("queries", 0) + 1
+                    if snaps != prev:
+                        rep.violation(dict(base, kind="counterexample", part="views", step=step, op=op, impl=snaps, spec=prev,
+                                           explanation="a query changed the graph of a diagram object"))
+                        flagged = True
+                        break
+                    if op[1] < len(prev):
+                        want = expected_answer(snaps[op[1]], op[2], c["ids"])
+                        if op[2][0] in ("nodes", "associations", "inheritance", "outedges", "outnb", "innb"):
+                            dist["answers_compared"] = dist.get("answers_compared", 0) + 1
+                        if ans != want:
+                            on_source = root[op[1]] == 0
+                            if on_source:
+                                rep.violation(dict(base, kind="counterexample", part="views", step=step, op=op, impl=ans, spec=want,
+                                                   model=None if model_trace is None else model_trace[step][0],
+                                                   explanation="after read-only operations on the diagram and its derived views, this query on the SOURCE diagram "
+                                                               "answers differently from what the source's (unchanged) graph says; encoding: outedges -> "
+                                                               "[get_out_edges, get_outgoing_relations, get_associations_with_condition(True)] as sorted edges"))
+                                flagged = True
+                                break
+                            rep.oblige("correspondence:views-answers", False,
+                                       f"object {op[1]} answers {ans} to {op[2]} but its graph says {want}; {c['decls']} {c['classes']} {c['ops']}")
+                elif op[0] == "sub":
                     dist["sub_ops"] += 1
-                    if op[1] < nobj and snaps[-1] != snaps[op[1]]:
-                        dist["sub_that_removed"] += 1
-                if op[0] in ("sub", "copy") and op[1] < nobj:
-                    nobj += 1
-            if model_ok and len(trace) == len(c["ops"]) and trace != model_trace and not any(s and s[0] == "error" for s in trace):
-                rep.oblige("correspondence:views-model", False,
-                           f"snapshots of the derived diagrams differ from the model: impl={trace} model={model_trace} on {c['decls']} {c['classes']} {c['ops']}")
+                    if op[1] < len(prev):
+                        root.append(len(prev))
+                        if snaps[-1] != snaps[op[1]]:
+                            dist["sub_that_removed"] += 1
+                elif op[0] == "copy" and op[1] < len(prev):
+                    root.append(root[op[1]])
+                prev = snaps
+            if model_ok and not flagged and len(trace) == len(c["ops"]):
+                impl_trace = [[e[0]] if op[0] == "query" else [e[0], e[1]] for op, e in zip(c["ops"], trace)]
+                if impl_trace != model_trace:
+                    rep.oblige("correspondence:views-model", False,
+                               f"answers / snapshots of the derived diagrams differ from the model: impl={impl_trace} model={model_trace} on {c['decls']} {c['classes']} {c['ops']}")
     # classification of the generated fields against the Spec
     items = list(kind_exprs.values())
     if items:
@@ -1001,9 +1122,14 @@ def replay_finding(rep, f, model_ok: bool) -> None:
     model = v[2][0] if model_ok else None
     if f.cls == "K_subdiagram_shallow":
         trace = r.get("trace") or []
-        broken = impl is None or impl[0] != 0 or len(trace) != len(case["ops"]) or any(s[0] != impl[1] for s in trace if s and s[0] != "error") \
-            or any(s and s[0] == "error" for s in trace)
-        removed = bool(trace) and trace[-1][-1] != trace[-1][0]
+        broken = impl is None or impl[0] != 0 or len(trace) != len(case["ops"]) or any(s and s[0] == "error" for s in trace) \
+            or any(s[1][0] != impl[1] for s in trace)
+        removed = bool(trace) and not broken and trace[-1][1][-1] != trace[-1][1][0]
+        if not broken:
+            for op, (ans, snaps) in zip(case["ops"], trace):
+                # every query on the source must answer what the source's graph says
+                if op[0] == "query" and op[1] == 0 and ans != expected_answer(snaps[0], op[2], case["ids"]):
+                    broken = True
         if f.kind == "fixed":
             if broken or not removed:
                 rep.violation({"kind": "counterexample", "part": "views", "regression_of": f.fid, "case": w["case"], "impl": trace,
@@ -1047,7 +1173,7 @@ def run(tier: str, seed: int, replay=None) -> int:
                   "class and field names are unique per program in the proved fragment (no field overriding); programs declare bases before subclasses (Python requires it)"]
     rep.rule = ("(1) classification: every annotation built from 17 leaves and 9 wrappers up to depth 2 (typing normal form), all 13 predicates, impl vs generated Gallina vs Spec; "
                 "(2) seeded random dataclass programs (2-6 dataclasses, 0-2 enums, 0-1 plain class, single/multiple inheritance up to 3+ levels, forward references quoted at the leaf / "
-                "whole-string / from __future__ import annotations, random class subset in random order with occasional duplicates, 0-6 read-only operations on the diagram and its derived views), "
+                "whole-string / from __future__ import annotations, random class subset in random order, 0-6 read-only operations on the diagram and its derived views -- sub-diagram derivations, shallow copies, queries whose ANSWERS are recorded; the same query on a view and on its source in both orders; a final sweep asking every object, views first and the source last, for the out-edges of every class), "
                 "each in a fresh forked process; distinct = distinct (program, class list, ops, variant); non-trivial = the diagram has at least one edge")
     ok_spec, log = core.coq_make(["Base/Sx.vo", "Diagram/FieldKindSpec.vo", "Diagram/DiagramSpec.vo"])
     rep.oblige("build:spec", ok_spec, "" if ok_spec else core.first_error(log))
